@@ -5,6 +5,7 @@ package local
 import (
 	vnd "github.com/buildbarn/bb-storage/internal/verifnd"
 	"github.com/buildbarn/bb-storage/pkg/blobstore/buffer"
+	pb "github.com/buildbarn/bb-storage/pkg/proto/blobstore/local"
 )
 
 // Verif_C02_P1_InvariantPerMethod: each method of PersistentBlockList preserves
@@ -80,3 +81,49 @@ func Verif_C02_P7_DeferredRelease() { verifScenarioDeferredRelease() }
 // release notification, with retries; NotifyPersistentStateWritten only after a
 // successful write of the state obtained by the immediately preceding export.
 func Verif_C02_P5_CommitOrdering() { verifScenarioProcessBlockPut() }
+
+// Verif_C02_P8_RestoredWriteCursor: a block re-attached after a restart at the
+// write offset recorded in the state file (any offset, sector aligned or not)
+// places the next upload entirely at or after that offset and inside the block:
+// committed bytes below the offset are never overwritten, for every sector
+// size, offset and upload size.
+func Verif_C02_P8_RestoredWriteCursor() {
+	S := []int{1, 2, 4}[vnd.Choose(3)]
+	const blockSectors = 2
+	blockBytes := blockSectors * S
+	before := vnd.Bytes(2 * blockBytes)
+	dev := &verifDevice{image: append([]byte(nil), before...), sector: S}
+	pa := NewBlockDeviceBackedBlockAllocator(dev, verifPlainFactory{}, S, blockSectors, 2, "verif")
+	which := vnd.Choose(2)
+	base := which * blockBytes
+	dev.lo, dev.hi = base, base+blockBytes
+	loc := &pb.BlockLocation{OffsetBytes: int64(base), SizeBytes: int64(blockBytes)}
+	w := vnd.Int(0, blockBytes)
+	block, found := pa.NewBlockAtLocation(loc, int64(w))
+	vnd.Assert(found, "a free block was not re-attached at its recorded location")
+	n := vnd.Choose(blockBytes + 1)
+	if !block.HasSpace(int64(n)) {
+		vnd.Cover("restored-block-full")
+		// refusing is only right when the object really does not fit behind the offset
+		// (space is handed out in whole sectors from the next sector boundary)
+		vnd.Assert(((w+S-1)/S)*S+n > blockBytes, "a restored block refused an upload that fits behind the recorded write offset")
+		return
+	}
+	o := &verifObject{n: n, data: vnd.Bytes(n), digest: verifTrustDigest(n), maxCuts: 1}
+	o.writer = block.Put(int64(n))
+	verifRunWriter(o)
+	vnd.Assert(o.err == nil, "an upload into a restored block failed on a working device")
+	vnd.Assert(o.off >= int64(w), "an upload into a restored block was placed below the recorded write offset")
+	vnd.Assert(o.off+int64(n) <= int64(blockBytes), "an upload into a restored block extends beyond the block")
+	vnd.Assert(!dev.outside, "a device write fell outside the restored block")
+	for j := 0; j < blockBytes; j++ {
+		vnd.Assert(vnd.Implies(j < w, dev.image[base+j] == before[base+j]), "an upload into a restored block overwrote committed bytes below the recorded write offset")
+	}
+	for j := 0; j < n; j++ {
+		vnd.Assert(dev.image[base+int(o.off)+j] == o.data[j], "a byte uploaded into a restored block is not at its own offset")
+	}
+	if w%S != 0 {
+		vnd.Cover("restored-offset-unaligned")
+	}
+	vnd.Observe("p8", uint64(w), uint64(o.off))
+}
